@@ -817,6 +817,101 @@ example : (match readXrefTableAndTrailer exEnv (fun _ _ => .err) exBase 5 exFile
 
 end FileExample
 
+/-! ### Non-vacuity (filtered cross-reference streams)
+
+`fxFile`: `%PDF-1.5`, then object `1 0` = a cross-reference stream `<</Type/XRef/Size 6/W[1 2 2]/Index[0 2 5 1]
+/Filter/FlateDecode/DecodeParms<</Predictor 12/Columns 5>>/Length 3>>` (printed by the C03 printer) whose three
+rows (free, in use, compressed) are PNG-predicted with the filter types Sub, Paeth, Average.  The writer relation
+holds (`fx_pngFlate`), the data-level theorem applies and the model computes the same; the section satisfies
+`StreamAt`, every hypothesis of `file_walk_newest_wins_filtered` is proved, and the model computes the table from
+the bytes. -/
+
+section FilteredExample
+open Enc XrefFiltered PdfLex XrefTable Offsets
+
+def fxSubs : List Sub := [⟨0, [.free 0 65535, .raw 17 0]⟩, ⟨5, [.stream 9 2]⟩]
+def fxParams : Params := { predictor := 12, colors := 1, bpc := 8, columns := 5 }
+def fxTypes : List PredictorType := [.sub, .paeth, .avg]
+/-- what the writer hands to zlib: three rows of 1 + 5 bytes (tag, then the filtered row) -/
+def fxPredicted : List UInt8 := predicted 1 fxTypes 1 2 2 fxSubs
+/-- stands for the compressed bytes -/
+def fxZ : List UInt8 := [120, 94, 55]
+def fxExt : Ext :=
+  { inflateZlib := fun z => if z = fxZ then some fxPredicted else none, inflateRaw := fun _ => none,
+    dct := fun _ => none, zlibEncode := fun _ => [], lzwEncode := fun _ => none }
+
+
+theorem fx_fits : ∀ s ∈ fxSubs, ∀ e ∈ s.entries, Fits 1 2 2 e := by
+  intro s hs e he
+  simp only [fxSubs, List.mem_cons, List.not_mem_nil, or_false] at hs
+  rcases hs with rfl | rfl <;> simp only [List.mem_cons, List.not_mem_nil, or_false] at he
+  · rcases he with rfl | rfl <;> simp [Fits, fieldsOf]
+  · subst he; simp [Fits, fieldsOf]
+
+theorem fx_pngFlate : PngFlate fxExt 1 2 2 fxSubs [.flate fxParams] fxZ :=
+  PngFlate.bare fxParams 1 fxTypes fxZ (by decide) (png_columns_geometry 12 5 (by omega) (by omega) 1)
+    (by simp [fxExt, fxPredicted])
+
+example : ∃ data, decodeChain fxExt fxZ [.flate fxParams] = .ok data ∧
+    parseSections [1, 2, 2] false (fxSubs.map fun s => (s.first, s.entries.length)) data [] = .ok fxSubs :=
+  png_flate_stream_section_reads_back fxExt fxSubs 1 2 2 false (by omega) (by omega) (by omega) fx_fits (by omega) _ _ fx_pngFlate
+
+example : (match decodeChain fxExt fxZ [.flate fxParams] with
+    | .ok data => parseSections [1, 2, 2] false [(0, 2), (5, 1)] data [] == .ok fxSubs
+    | _ => false) = true := by decide +kernel
+
+def fxInfo : Dict Unit :=
+  [([84, 121, 112, 101], .name [88, 82, 101, 102]), ([83, 105, 122, 101], .int 6), ([87], .arr [.int 1, .int 2, .int 2]),
+   ([73, 110, 100, 101, 120], .arr [.int 0, .int 2, .int 5, .int 1]), ([70, 105, 108, 116, 101, 114], .name [70, 108, 97, 116, 101, 68, 101, 99, 111, 100, 101]),
+   ([68, 101, 99, 111, 100, 101, 80, 97, 114, 109, 115], .dict [([80, 114, 101, 100, 105, 99, 116, 111, 114], .int 12), ([67, 111, 108, 117, 109, 110, 115], .int 5)]), ([76, 101, 110, 103, 116, 104], .int 3)]
+def fxStreamText : List UInt8 := (PdfSpec.render (fun _ => [48, 46]) (Prim.stream fxInfo (.pending fxZ)) []).1
+def fxSection : List UInt8 := [49, 32, 48, 32, 111, 98, 106, 10] ++ fxStreamText ++ [10, 101, 110, 100, 111, 98, 106, 10, 115, 116, 97, 114, 116, 120, 114, 101, 102]
+def fxFile : List UInt8 := [37, 80, 68, 70, 45, 49, 46, 53, 10] ++ fxSection ++ [10, 57, 10, 37, 37, 69, 79, 70]
+
+def fxRev : Rev (Dict Unit) := ⟨9, fxSubs, fxInfo⟩
+
+theorem fx_streamSectionText : StreamSectionText exEnv.parseReal fxInfo fxZ fxSection := by
+  refine ⟨[49], [32], [48], [32], [10], fxStreamText, [10], [10], [115, 116, 97, 114, 116, 120, 114, 101, 102], 1, 0, by decide +kernel,
+    ⟨by decide, by simp [PdfSyntax.Digits, PdfSyntax.isDig], by decide⟩, ⟨by decide, by simp [PdfSyntax.Digits, PdfSyntax.isDig], by decide⟩, by decide, by decide,
+    PdfSyntax.Gap.ws 32 [] (by decide) PdfSyntax.Gap.nil, by simp, PdfSyntax.Gap.ws 32 [] (by decide) PdfSyntax.Gap.nil, by simp,
+    PdfSyntax.Gap.ws 10 [] (by decide) PdfSyntax.Gap.nil, ?_, PdfSyntax.Gap.ws 10 [] (by decide) PdfSyntax.Gap.nil, by simp,
+    PdfSyntax.Gap.ws 10 [] (by decide) PdfSyntax.Gap.nil, by simp, by decide, by decide +kernel, by decide⟩
+  apply PdfSpec.render_stream_spells
+  simp [fxInfo, PdfSpec.RenderableE, PdfSpec.Renderable, PdfSpec.RenderableL]
+
+theorem fx_streamAt : StreamAt exEnv fxExt false fxFile 0 fxRev := by
+  refine ⟨fxZ, fxSection, [10, 57, 10, 37, 37, 69, 79, 70], 1, 2, 2, 6, [.flate fxParams], by decide +kernel, by decide +kernel,
+    fx_streamSectionText, by simp [PdfSyntax.Bnd]; decide, ?_, by decide +kernel, rfl, by decide, by decide +kernel,
+    by decide +kernel, by omega, by omega, by omega, fx_fits, by omega, pngFlate_filtered fxExt 1 2 2 fxSubs fx_fits fx_pngFlate⟩
+  show PdfSyntax.WFE fxInfo
+  simp only [fxInfo, PdfSyntax.WFE, PdfSyntax.WF, PdfSyntax.WFL, PdfSyntax.keysOf]
+  decide
+
+theorem fx_WF : ∀ id, id < 6 → WF (historyOf [fxRev]) id := by
+  intro id hid
+  have : id = 0 ∨ id = 1 ∨ id = 2 ∨ id = 3 ∨ id = 4 ∨ id = 5 := by omega
+  rcases this with rfl | rfl | rfl | rfl | rfl | rfl <;>
+    (refine ⟨by unfold pairsOK; decide, ?_⟩
+     simp [historyOf, fxRev, fxSubs, mentionsOf, mentions, allPairs, secPairs, subPairs, pairsFrom, keeps, gen])
+
+/-- all hypotheses of `file_walk_newest_wins_filtered` hold for `fxFile`: one revision stored as a cross-reference
+    stream `/Filter /FlateDecode /DecodeParms << /Predictor 12 /Columns 5 >>` with row filter types Sub, Paeth, Average
+    (the three bytes `x^7` stand for the compressed data; what zlib returns for them is `fxExt`) -/
+theorem fxFile_newest_wins (id : Nat) (hid : id < 6) :
+    ∃ t, XrefSec.loadTableC exEnv (XrefFilters.decOf fxExt false) false exBase 5 fxFile 0 = .ok (t, fxInfo) ∧
+      t.length = 6 + 1 ∧ t[id]? = some ((latest (historyOf [fxRev]) id).getD .invalid) :=
+  file_walk_newest_wins_filtered exEnv rfl fxExt false false exBase fxFile 0 5 (by decide +kernel) fxRev [] 6
+    (by decide +kernel) (by decide +kernel)
+    (by intro r hr; simp only [List.mem_cons, List.not_mem_nil, or_false] at hr; subst hr; exact Or.inr fx_streamAt)
+    rfl (by decide) rfl (by simp) (by simp) id hid (fx_WF id hid)
+
+/-- and the model computes the table from the bytes -/
+example : (match XrefSec.loadTableC exEnv (XrefFilters.decOf fxExt false) false exBase 5 fxFile 0 with
+    | .ok (t, _) => t == [.free 0 65535, .raw 17 0, .invalid, .invalid, .invalid, .stream 9 2, .free 0 65535]
+    | _ => false) = true := by decide +kernel
+
+end FilteredExample
+
 /-! ## The rule before the repair (D11) did not satisfy the property
 
 `XRef::Stream { .. } | XRef::Invalid => true` let *any* older section overwrite a compressed entry.
